@@ -1087,6 +1087,13 @@ def judge_cors(ops, impl, part):
             # the route's methods are those the HISTORY of Handle/Remove/Clean leaves (the route table of the judge), not what
             # the implementation's own bookkeeping reports
             ms = r.method_set(decB(f['node']))
+            if decB(f['node']) == b'' and not r.illformed:
+                # the server-wide node (path "*" or ""): its methods are OPTIONS, TRACE iff configured, and the methods some
+                # live route has (HEAD as the implementation reports it: the property does not fix it for this node)
+                st = r.star_set() - {'HEAD'}
+                if 'HEAD' in node_methods:
+                    st = st | {'HEAD'}
+                ms = sorted(st)
             if ms is not None:
                 node_methods = [m if isinstance(m, str) else m.decode('latin-1') for m in ms]
                 allow = ', '.join(node_methods)
@@ -1380,6 +1387,8 @@ def judge_c14(ops, impl):
             h.setdefault('answers', {})[nh] = ok
             if h.get('deleted') and not ok and h['deleted'][1].get(nh) is True and not domain_fits(nh, h['deleted'][0]):
                 bad.append((i, 'host %r was accepted before Delete(%r) and is rejected after it, although it cannot belong to the deleted domain' % (host, h['deleted'][0])))
+            if h.get('deleted') and ok and h['deleted'][1].get(nh) is False:
+                bad.append((i, 'host %r was rejected before Delete(%r) and is accepted after it: a Delete leaves every other answer as it was' % (host, h['deleted'][0])))
             lits = [d for d in h['doms'] if b'{' not in d]
             if nh in lits and nh not in (b'', b'*'):
                 if not ok:
@@ -1816,13 +1825,13 @@ JUDGES = {
     'C04': [judge_c04, judge_c03],
     'C05': [judge_nofault, judge_c05_agree],
     'C06': [judge_c03, judge_c04, judge_nofault],
-    'C07': [judge_c07, judge_c07_decoys, judge_nested],
+    'C07': [judge_c07, judge_c07_decoys, judge_nested, judge_c09],
     'C08': [judge_c08],
     'C09': [judge_c09, judge_c09_factories],
     'C10': [judge_c10, judge_c01],      # C01's alignment check = "URL from the captured parameters reproduces the path"
     'C11': [lambda o, i: judge_cors(o, i, 'C11')],
     'C12': [lambda o, i: judge_cors(o, i, 'C12')],
-    'C13': [judge_c13, judge_c09, judge_nested],
+    'C13': [judge_c13, judge_c09, judge_nested, judge_c15],
     'C14': [judge_c14, judge_nofault],
     'C15': [judge_c15],
     'C16': [judge_c16, judge_nested],
